@@ -1595,9 +1595,8 @@ class Mapping:
         if outVersion:
             mapping[flavor][inProduct][inVersion] = (outProduct, outVersion)
         else:
-            # Indicate product should be removed completely
-            if inVersion in mapping[flavor][inProduct]:
-                del mapping[flavor][inProduct][inVersion]
+            # Indicate that this version of the product (every version, for "any") should be removed
+            mapping[flavor][inProduct][inVersion] = (outProduct, None)
 
     def exists(self, product, version, flavor="generic"):
         """does a mapping exist?"""
@@ -1650,6 +1649,8 @@ class Mapping:
         for f in self._mapping.keys():
             for inProduct in self._mapping[f].keys():
                 for inVersion, (outProduct, outVersion) in self._mapping[f][inProduct].items():
+                    if outVersion is None:
+                        continue        # a removed product has no image to map back from
                     if inv._exists(outProduct, outVersion, flavor=f):
                         raise RuntimeError("Mapping isn't one-to-one and onto, hence inverse is ill-defined")
                     inv.add(outProduct, inVersion=outVersion, outProduct=inProduct, outVersion=inVersion,
